@@ -172,8 +172,8 @@ def cases(tier, seed):
     for name, data in FIXED.items():
         for b in [None, "default"] + list(range(1, len(data) + 3)):
             yield {"space": "exhaustive", "facet": "fixed", "file": name, "blocksize": b}
-    nrd = 700 if tier == "quick" else 9000
-    nrt = 330 if tier == "quick" else 4500
+    nrd = 700 if tier == "quick" else 30000
+    nrt = 330 if tier == "quick" else 15000
     # interleave the two facets so that a truncated run still sees both
     plan = ["rd"] * nrd + ["rt"] * nrt
     rng.shuffle(plan)
